@@ -28,6 +28,7 @@ type Config struct {
 	MaxPaths      int
 	Workers       int
 	Trace         bool
+	NoMerge       bool
 	InitPkgs      []string // package paths whose init is run (leniently) before each path
 	StopAtFirst   bool     // stop exploring a harness after its first violation of each label
 	Verbose       bool
@@ -121,6 +122,8 @@ type Exec struct {
 	newItems   []workItem
 
 	steps     int
+	pending   []pendingAssert
+	merges    int
 	initSteps int
 	names     map[string]int
 	inputs    []Input
@@ -247,6 +250,32 @@ func (ex *Exec) query(extra *Term, wantModel bool) (Result, Model) {
 		panic(unsupported{"solver: " + msg})
 	}
 	return r, m
+}
+
+// quickQuery tries the primary solver only, with the short cap; Unknown is a
+// legitimate answer here (the caller falls back to individual queries).
+func (ex *Exec) quickQuery(extra *Term) Result {
+	as := make([]*Term, 0, len(ex.pc)+1)
+	for i, c := range ex.pc {
+		if !ex.pcLemma[i] {
+			as = append(as, c)
+		}
+	}
+	as = append(as, extra)
+	cfg := ex.eng.Cfg
+	short := 2000
+	if cfg.TimeoutMs < short {
+		short = cfg.TimeoutMs
+	}
+	s, err := ex.solvers.get(cfg.Solver, short)
+	if err != nil {
+		return Unknown
+	}
+	r, _, err := s.Check(as, false)
+	if err != nil {
+		return Unknown
+	}
+	return r
 }
 
 // SolverSet is a worker's portfolio: the primary solver first on the path
@@ -472,6 +501,9 @@ func (ex *Exec) modelIfValid() Model {
 
 // assume constrains the path; an infeasible assumption ends it silently.
 func (ex *Exec) assume(c *Term) {
+	if !(c.IsConst() && c.C == 1) {
+		ex.flush()
+	}
 	if c.IsConst() {
 		if c.C == 0 {
 			panic(pathEnd{"assume", "assumption false"})
@@ -519,6 +551,7 @@ func (ex *Exec) assert(c *Term, label string) {
 			return
 		}
 		// concrete failure: any model of the path condition is a witness
+		ex.flush()
 		m := ex.modelIfValid()
 		if m == nil {
 			if ex.cursor < len(ex.prefix) {
@@ -538,41 +571,79 @@ func (ex *Exec) assert(c *Term, label string) {
 		ex.res.ConcreteAsrt++
 		return
 	}
+	// deferred: decided at the next flush point under the (stronger) path
+	// condition reached there. Branch decisions partition the inputs, so every
+	// input violating c reaches a flush point on some explored path.
+	ex.pending = append(ex.pending, pendingAssert{c, label})
+}
+
+type pendingAssert struct {
+	c     *Term
+	label string
+}
+
+// flush decides all pending assertions with one query (and one per assertion
+// only when that query is satisfiable).
+func (ex *Exec) flush() {
+	if len(ex.pending) == 0 {
+		return
+	}
+	pend := ex.pending
+	ex.pending = nil
 	if ex.cursor < len(ex.prefix) {
 		d := ex.prefix[ex.cursor]
 		ex.cursor++
 		ex.recordDecision(d)
-		ex.pushPC(c)
+		for _, p := range pend {
+			ex.pushPCx(p.c, true)
+		}
 		if ex.cursor == len(ex.prefix) {
 			ex.modelValid = ex.model != nil
 		}
 		return
 	}
-	ex.res.Obligations++
-	r, m := ex.query(Not(c), true)
+	ex.res.Obligations += len(pend)
+	negs := make([]*Term, len(pend))
+	for i, p := range pend {
+		negs[i] = Not(p.c)
+	}
+	r := Unknown
+	if len(pend) > 1 {
+		r = ex.quickQuery(Or(negs...))
+	}
 	if r == Unsat {
-		ex.res.Discharged++
+		ex.res.Discharged += len(pend)
 		ex.recordDecision(1)
-		ex.pushPCx(c, true) // implied by the path condition: a lemma for later queries
+		for _, p := range pend {
+			ex.pushPCx(p.c, true)
+		}
 		return
 	}
-	ex.violation("assert", label, "assertion can be false", m)
-	// continue on the side where it holds, if any
 	ex.recordDecision(1)
-	ok := false
-	if ex.modelValid {
-		if v, eok := Eval(c, ex.model); eok && v == 1 {
-			ok = true
+	for _, p := range pend {
+		r, m := ex.query(Not(p.c), true)
+		if r == Unsat {
+			ex.res.Discharged++
+			ex.pushPCx(p.c, true)
+			continue
 		}
-	}
-	if !ok {
-		r2, m2 := ex.query(c, true)
-		if r2 != Sat {
-			panic(pathEnd{"stop", "assertion " + label + " fails on every input of this path"})
+		ex.violation("assert", p.label, "assertion can be false", m)
+		// continue on the side where it holds, if any
+		ok := false
+		if ex.modelValid {
+			if v, eok := Eval(p.c, ex.model); eok && v == 1 {
+				ok = true
+			}
 		}
-		ex.model, ex.modelValid = m2, true
+		if !ok {
+			r2, m2 := ex.query(p.c, true)
+			if r2 != Sat {
+				panic(pathEnd{"stop", "assertion " + p.label + " fails on every input of this path"})
+			}
+			ex.model, ex.modelValid = m2, true
+		}
+		ex.pushPC(p.c)
 	}
-	ex.pushPC(c)
 }
 
 func (ex *Exec) violation(kind, label, msg string, m Model) {
@@ -827,7 +898,30 @@ func (e *Engine) runPath(fn *ssa.Function, name string, it workItem, solvers *So
 			res.Model = m
 		}
 	}()
-	ex.call(nil, 0, fn, nil)
+	func() {
+		defer func() {
+			// decide what is still pending however the path ended (a panic
+			// raised by flush itself replaces the original one only when it
+			// is an engine abort)
+			if r := recover(); r != nil {
+				if _, isUnsup := r.(unsupported); !isUnsup {
+					func() {
+						defer func() {
+							if r2 := recover(); r2 != nil {
+								if _, ok := r2.(unsupported); ok {
+									r = r2
+								}
+							}
+						}()
+						ex.flush()
+					}()
+				}
+				panic(r)
+			}
+			ex.flush()
+		}()
+		ex.call(nil, 0, fn, nil)
+	}()
 	return
 }
 
